@@ -92,6 +92,17 @@ func classifyCompile(output string) (string, string) {
 	if strings.HasPrefix(first, "field and method with the same name") {
 		return "field-name-collides-with-generated-method", first
 	}
+	// the two known "undefined member" findings are named by what is SPECIFIC to them (the generated
+	// variable `wrapper`, the status/headers wrapper type, the header field Type): the shape of the
+	// message alone ("X.X undefined (type X has no field or method X)") is shared by unrelated failures
+	if m := regexp.MustCompile(`^wrapper\.(\w+)(\.\w+)? undefined \(type (\w+) has no field or method (\w+)\)`).FindStringSubmatch(first); m != nil {
+		switch {
+		case m[1] == "Type" && m[2] != "":
+			return "header-field-named-type-on-sum-or-alias-wrapper", first
+		case m[2] == "" && (strings.HasSuffix(m[3], "StatusCode") || strings.HasSuffix(m[3], "Headers")):
+			return "response-wrapper-without-the-header-field", first
+		}
+	}
 	norm := identRe.ReplaceAllStringFunc(first, func(w string) string {
 		if keepWords[w] {
 			return w
